@@ -15,6 +15,8 @@ pub struct MatchInfo {
     pub root: Option<usize>,
     /// capture name -> value already shaped by the capture's quantifier
     pub caps: BTreeMap<String, MVal>,
+    /// capture name -> captured nodes (tree indices) in the order tree-sitter lists them
+    pub raw: BTreeMap<String, Vec<usize>>,
 }
 
 #[derive(Clone, Debug, PartialEq, Eq, PartialOrd, Ord, Hash)]
